@@ -36,6 +36,11 @@ ASSUMPTIONS = [
     "service names, live tasks and pending timers; State.notify_var_last is not part of it",
     "after unload the three built-in pyscript services (reload, jupyter_kernel_start, generate_stubs) are don't-care",
     "one webhook id is used by one slot only; several definitions may exist for it only transiently (redefinition)",
+    "a definition whose shared service name is owned by another context ('refused') is don't-care in everything "
+    "else it declares until it is redefined; at most one file declares the shared name at a time (two files "
+    "declaring it and starting together race for it, the property does not decide the winner)",
+    "startup/shutdown markers of a definition whose context was stopped while it was being defined are don't-care; "
+    "it must never run for an occurrence afterwards",
 ]
 TIERS = {
     "quick": {"runs": 500, "chunk": 17},
@@ -101,7 +106,7 @@ def gen(rng: random.Random, tier: str) -> dict:
                 ops.append({"kind": "setup"})
         else:
             ops.append({"kind": "stall", "s": rng.choice([0.05, 0.5])})
-    return {"cfg": cfg, "spec": {"templates": templates, "files": files}, "ops": ops}
+    return normalize({"cfg": cfg, "spec": {"templates": templates, "files": files}, "ops": ops})
 
 
 # ------------------------------------------------------------------ rendering
@@ -181,6 +186,31 @@ def normalize(scn: dict) -> dict | None:
         if "tmpl" in op and op["tmpl"] >= n:
             op["tmpl"] = op["tmpl"] % n
     scn["spec"]["files"] = {k: v % n for k, v in scn["spec"]["files"].items()}
+    # at most one *file* declares the shared service name at any time: when two files that both declare it start
+    # together (set-up, start of Home Assistant) which of them gets the name is a race the property does not decide
+    tmpls = scn["spec"]["templates"]
+    files = scn["spec"]["files"]
+    plain = [i for i, kinds in enumerate(tmpls) if "shr" not in kinds]
+    holders = [name for name in sorted(files) if "shr" in tmpls[files[name]]]
+    for name in holders[1:]:
+        if plain:
+            files[name] = plain[0]
+        else:
+            del files[name]
+    cur = dict(files)
+    ops = []
+    for op in scn["ops"]:
+        if op["kind"] == "file_edit":
+            other = [n for n in cur if n != op["name"] and "shr" in tmpls[cur[n]]]
+            if "shr" in tmpls[op["tmpl"]] and other:
+                if not plain:
+                    continue
+                op["tmpl"] = plain[0]
+            cur[op["name"]] = op["tmpl"]
+        elif op["kind"] == "file_delete":
+            cur.pop(op["name"], None)
+        ops.append(op)
+    scn["ops"] = ops
     return scn
 
 
